@@ -555,3 +555,24 @@ Proof.
     + intros H. apply is_duplicate_true_header in H. tauto.
     + tauto.
 Qed.
+
+(* ---------- absent field versus zero value ---------- *)
+(* The generated unpack() returns early when the RDATA is exhausted, leaving the
+   remaining struct fields at their zero value; the model leaves them absent and
+   its comparisons tell an absent field from a present zero value.  Witness: CAA
+   with RDATA 00 (Flag only) and with RDATA 00 00 (Flag, empty Tag).  The Go
+   library answers IsDuplicate = true for this pair (both are
+   CAA(Flag 0, Tag empty, Value empty)) although the RDATA octets differ; the model
+   answers false. *)
+Definition caa_wire_short : bytes := [1;97;0; 1;1; 0;1; 0;0;0;60; 0;1; 0].
+Definition caa_wire_empty_tag : bytes := [1;97;0; 1;1; 0;1; 0;0;0;60; 0;2; 0;0].
+Lemma absent_field_vs_zero_value_witness :
+  match unpack_rr caa_wire_short 0, unpack_rr caa_wire_empty_tag 0 with
+  | Ok (r1, _), Ok (r2, _) =>
+    rr_kind r1 = "CAA"%string /\ rr_kind r2 = "CAA"%string /\
+    rr_data r1 = [("Flag"%string, V_n 0)] /\
+    rr_data r2 = [("Flag"%string, V_n 0); ("Tag"%string, V_s [])] /\
+    is_duplicate r1 r2 = Ok false /\ is_duplicate r1 r1 = Ok true /\ is_duplicate r2 r2 = Ok true
+  | _, _ => False
+  end.
+Proof. vm_compute. repeat split. Qed.
